@@ -246,6 +246,84 @@ Proof.
     apply G; auto. lia.
 Qed.
 
+Lemma get_peer_index_total : forall t (f : field), exists t' z, get_peer_index false t f = Some (t', z) /\ (0 <= z)%Z.
+Proof.
+  intros t f. unfold get_peer_index. cbn [negb]. destruct (index_of (f_raw f) t); eexists; eexists; split; try reflexivity; lia.
+Qed.
+
+(** which local-trust files the CLI accepts (named mode): every record has 2 or 3 fields (the header
+    too), every data record has a parsable, JSON-representable value, there is at least one data
+    record, and the stream ends cleanly — everything else is reported as an error *)
+Definition count_ok (r : record) : Prop := 2 <= length r <= 3.
+Definition value_ok (r : record) : Prop :=
+  match r with _ :: _ :: tl => exists v, rec_value tl = Some v | _ => False end.
+Lemma load_mat_go_ok_iff : forall (rs : list record) skip t acc size,
+  (exists l, load_mat_go false rs skip t acc size = ROk l) <-> Forall count_ok rs /\ Forall value_ok (data rs skip).
+Proof.
+  induction rs as [|r rest IH]; intros skip t acc size.
+  - cbn [load_mat_go]. split; [intros _; split; [constructor|destruct skip; constructor]|intros _; eexists; reflexivity].
+  - cbn [load_mat_go]. destruct (Nat.ltb_spec (length r) 2) as [L2|G2].
+    + split; [intros [l H]; discriminate|]. intros [HC _]. inversion HC; subst. unfold count_ok in *. lia.
+    + destruct (Nat.ltb_spec 3 (length r)) as [L3|G3].
+      * split; [intros [l H]; discriminate|]. intros [HC _]. inversion HC; subst. unfold count_ok in *. lia.
+      * destruct skip.
+        -- rewrite (IH false t acc size). unfold data. cbn [tl]. split; intros [A B]; split; auto.
+           ++ constructor; auto. unfold count_ok. lia.
+           ++ inversion A; auto.
+        -- destruct r as [|f0 [|f1 tl]]; try (simpl in G2; lia).
+           destruct (get_peer_index_total t f0) as [t1 [z0 [G0 Hz0]]]. rewrite G0.
+           destruct (Z.ltb_spec z0 0); [lia|].
+           destruct (get_peer_index_total t1 f1) as [t2 [z1 [G1 Hz1]]]. rewrite G1.
+           destruct (Z.ltb_spec z1 0); [lia|].
+           fold (rec_value tl). unfold data. destruct (rec_value tl) as [v|] eqn:Ev.
+           ++ rewrite IH. unfold data. split; intros [A B]; split.
+              ** constructor; auto. unfold count_ok. simpl in *. lia.
+              ** constructor; auto. unfold value_ok. eauto.
+              ** inversion A; auto.
+              ** inversion B; auto.
+           ++ split; [intros [l Hd]; discriminate|]. intros [_ B]. inversion B as [|? ? Hv _]; subst.
+              unfold value_ok in Hv. destruct Hv as [v Hv]. congruence.
+Qed.
+
+Theorem load_matrix_csv_ok_iff : forall header t (i : @csvin S), NoDup t ->
+  (exists l, load_matrix_csv header false t i = ROk l) <->
+  clean_eof i = true /\ Forall count_ok (recs i) /\ data (recs i) header <> [] /\
+  Forall (fun r => match r with _ :: _ :: tl => exists v, rec_value tl = Some v /\ nonfinite S v = false | _ => False end) (data (recs i) header).
+Proof.
+  intros header t i Hnd. split.
+  - intros [l H]. destruct (load_matrix_csv_spec _ _ _ _ H Hnd) as [C [_ [_ [HF [Hsz [Hpos _]]]]]].
+    unfold load_matrix_csv in H.
+    destruct (load_mat_go false (recs i) header t [] 0) as [l0|] eqn:E; [|discriminate].
+    assert (Hex : exists l', load_mat_go false (recs i) header t [] 0 = ROk l') by eauto.
+    apply load_mat_go_ok_iff in Hex. destruct Hex as [HC HV].
+    destruct (ml_size l0 =? 0); [discriminate|]. rewrite C in H. cbn [negb] in H.
+    destruct (existsb (fun e => nonfinite S (snd e)) (ml_entries l0)) eqn:En; [discriminate|]. inversion H; subst l0.
+    split; [exact C|]. split; [exact HC|]. split.
+    + intros Hd. rewrite Hd in HF. inversion HF as [He|]. rewrite <- He in Hsz. cbn in Hsz. lia.
+    + clear - HF En. induction HF as [|e r es rs Hr _ IHf]; [constructor|].
+      simpl in En. apply orb_false_iff in En. destruct En as [En1 En2]. constructor; auto.
+      unfold arc_ok in Hr. destruct r as [|f0 [|f1 tl]]; try contradiction. destruct Hr as [_ [_ Hv]]. exists (snd e). auto.
+  - intros [C [HC [Hne HV]]]. unfold load_matrix_csv.
+    assert (HV' : Forall value_ok (data (recs i) header)).
+    { eapply Forall_impl; [|exact HV]. intros r Hr. unfold value_ok. destruct r as [|f0 [|f1 tl]]; auto. destruct Hr as [v [A _]]. eauto. }
+    destruct (proj2 (load_mat_go_ok_iff (recs i) header t [] 0) (conj HC HV')) as [l0 E]. rewrite E.
+    assert (E' : load_mat_go false (data (recs i) header) false t [] 0 = ROk l0).
+    { unfold data. destruct header; auto. destruct (recs i) as [|r rest]; [exact E|]. apply load_mat_go_header in E. exact E. }
+    destruct (load_mat_go_spec _ _ _ _ _ E' Hnd) as [_ [_ [es [He [Hf [Hs _]]]]]]. cbn [rev app] in He. subst es.
+    assert (Hsz : ml_size l0 <> 0).
+    { rewrite Hs. destruct (ml_entries l0) as [|e es]; [inversion Hf; subst; congruence|]. simpl.
+      assert (G : forall (xs : list (nat * nat * T S)) d0, 0 < d0 ->
+        0 < fold_left (fun d e => Nat.max (Nat.max d (Datatypes.S (fst (fst e)))) (Datatypes.S (snd (fst e)))) xs d0).
+      { induction xs as [|x xs IHx]; intros d0 Hd; simpl; auto. apply IHx. lia. }
+      pose proof (G es (Datatypes.S (Nat.max (fst (fst e)) (snd (fst e)))) (Nat.lt_0_succ _)) as G'. lia. }
+    destruct (Nat.eqb_spec (ml_size l0) 0); [contradiction|]. rewrite C. cbn [negb].
+    assert (Hfin : existsb (fun e => nonfinite S (snd e)) (ml_entries l0) = false).
+    { clear - Hf HV. revert HV. induction Hf as [|e r es rs Hr _ IHf]; intros HV; [reflexivity|].
+      inversion HV as [|? ? Hv Hvs]; subst. simpl. rewrite (IHf Hvs), orb_false_r.
+      unfold arc_ok in Hr. destruct r as [|f0 [|f1 tl]]; try contradiction. destruct Hr as [_ [_ Hval]]. destruct Hv as [v [A B]]. congruence. }
+    rewrite Hfin. eexists. reflexivity.
+Qed.
+
 (** ** the vector loader *)
 Definition vrec_names (r : record) : list name := match r with f0 :: _ => [f_raw f0] | _ => [] end.
 Definition varc_ok (tbl : list name) (e : nat * T S) (r : record) : Prop :=
